@@ -61,7 +61,10 @@ type Auth struct {
 	sessions       map[string]*session
 	users          []webUser
 	lock           sync.Mutex
-	sessionTTL     uint32
+	// attemptLock makes the checking of the rate limiter, the evaluation of a
+	// password, and the updating of the rate limiter a single step.
+	attemptLock sync.Mutex
+	sessionTTL  uint32
 }
 
 // webUser represents a user of the Web UI.
